@@ -26,6 +26,11 @@ func wraps(v, target ssa.Value, depth int) bool {
 	if resetOnto(r, target, depth) {
 		return true
 	}
+	if prm, isPrm := r.(*ssa.Parameter); isPrm {
+		if f := paramWraps(prm); f != nil && ssa.Value(f) == root(target) {
+			return true
+		}
+	}
 	switch x := r.(type) {
 	case *ssa.UnOp:
 		// a local variable assigned on several ways (`var bw *bufio.Writer; if … { bw = cw } else { bw = pooled
@@ -199,6 +204,7 @@ func extractOf(call *ssa.Call, idx int) ssa.Value {
 // path to every return (used to summarise `cleanup := func(){...}`).
 func mustEvents(fn *ssa.Function, tr transferFn) uint64 {
 	pa := newPathAnalysis(fn, tr)
+	pa.once = true
 	pa.run(0)
 	must := ^uint64(0)
 	any := false
@@ -458,6 +464,7 @@ func errGuardedClosure(cl *ssa.Function, tr transferFn) (cell *ssa.Alloc, whenNo
 // given edge.
 func guardSide(cl *ssa.Function, entry *ssa.BasicBlock, takeTrueEdge bool, tr transferFn) uint64 {
 	pa := newPathAnalysis(cl, tr)
+	pa.once = true
 	pa.edge = func(pred, succ *ssa.BasicBlock, _ uint64) bool {
 		if pred != entry {
 			return true
@@ -788,6 +795,18 @@ func r6ProducerBody(c *RuleCtx, fn *ssa.Function, props []string, name string, a
 			for ai, a := range cs.Common().Args {
 				if wrapsOut(a) {
 					addRole(callee.Name(), cs, true)
+					if !(sameValue(a, file) || sameValue(root(a), file)) {
+						// handed a writer stacked on the file and, next to it, the file itself
+						// (`flushSyncClose(br, f)`): the routine is a delegate all the same, and knows its
+						// writer parameter for what it is
+						for aj, a2 := range cs.Common().Args {
+							if aj != ai && aj < len(callee.Params) && ai < len(callee.Params) && (sameValue(a2, file) || sameValue(root(a2), file)) && isNamed(callee.Params[aj].Type(), "os", "File") {
+								setParamWrap(c.p.SSA, callee.Params[ai], callee.Params[aj])
+								a, ai = a2, aj
+								break
+							}
+						}
+					}
 					if (sameValue(a, file) || sameValue(root(a), file)) && depth < 2 && ai < len(callee.Params) && len(callee.Blocks) > 0 && (isNamed(callee.Params[ai].Type(), "os", "File") || isWriterInterface(callee.Params[ai].Type()) || ownerOfType(c.p.owners, callee.Params[ai].Type()) != nil) {
 						// handed the file itself: a delegate, judged by the same discipline
 						if _, done := delegateSucc[cs]; !done {
@@ -845,10 +864,26 @@ func r6ProducerBody(c *RuleCtx, fn *ssa.Function, props []string, name string, a
 			}
 		}
 	})
+	if delegateMode {
+		for _, r := range roles {
+			if r.name == "Flush" {
+				if c.r6Flushes == nil {
+					c.r6Flushes = map[*ssa.Function]bool{}
+				}
+				c.r6Flushes[fn] = true
+			}
+		}
+	}
 	if hasBufio {
 		found := false
 		for _, r := range roles {
 			if r.name == "Flush" {
+				found = true
+			}
+		}
+		// … or in a delegate that is handed the writer with the file (its exits are judged for the step)
+		for dcs := range delegateSucc {
+			if dc := staticCallee(dcs); dc != nil && c.r6Flushes[dc] {
 				found = true
 			}
 		}
@@ -1221,6 +1256,11 @@ func r6ProducerBody(c *RuleCtx, fn *ssa.Function, props []string, name string, a
 				return []uint64{ev | evRemoved}
 			}
 		}
+		if s, isDel := delegateSucc[cs]; isDel {
+			// what a delegate has done to the file whether it reports success or failure (a `close()` of
+			// the owner whose error is folded into another one, never tested on its own)
+			ev |= s & delegateFail[cs] & (evClosed | evRemoved)
+		}
 		if r, ok := roleOf[cs]; ok {
 			return []uint64{ev | r.bit}
 		}
@@ -1316,6 +1356,7 @@ func r6ProducerBody(c *RuleCtx, fn *ssa.Function, props []string, name string, a
 		return nil
 	}
 	pa = newPathAnalysis(fn, tr)
+	pa.once = true
 	pa.edgeTr = func(pred *ssa.BasicBlock, succIdx int, ev uint64) uint64 {
 		succ := pred.Succs[succIdx]
 		if len(pred.Succs) == 2 && len(delegateSucc) > 0 {
@@ -2235,7 +2276,8 @@ func r6Open(c *RuleCtx) {
 		v, ns := errorOfReturn(ret)
 		key := name + "/" + exitLabel(ret, labels)
 		pos := c.pos(ret)
-		if v != nil && openErr != nil && sameValue(v, openErr) && ns == nonNil {
+		if v != nil && openErr != nil && (sameValue(v, openErr) || sameValue(resolveLoad(v), openErr) || sameValue(resolveLoadDeep(v), openErr)) && (ns == nonNil || nilnessAt(openErr, ret.Block()) == nonNil) {
+			// (the error variable may live in memory because a deferred closure looks at it)
 			c.okP(props, key, pos, "exit after failed os.Open needs no release")
 			continue
 		}
